@@ -579,7 +579,7 @@ func DumpSessionMasked(ssn *framework.Session, masked bool) string {
 		for _, t := range job.GetAllPodsMap() {
 			claims := ""
 			if len(t.ResourceClaimInfo) > 0 {
-				claims = fmt.Sprintf(" claims=%d", len(t.ResourceClaimInfo))
+				claims = fmt.Sprintf(" claims=%v", claimDevices(t))
 			}
 			groups := t.GPUGroups
 			if dumpOpt.BlankPendingGroup && t.Status == pod_status.Pending {
@@ -595,6 +595,45 @@ func DumpSessionMasked(ssn *framework.Session, masked bool) string {
 		sort.Strings(sets)
 		fmt.Fprintf(&sb, "job %s: allocated=%s vec=%s active=%d sets=%v tasks=%s\n", id, vecStr(job.Allocated.ToVector(job.VectorMap)), vecStr(job.AllocatedVector),
 			job.GetActiveAllocatedTasksCount(), sets, strings.Join(tasks, " "))
+	}
+	// the DRA manager's view: every claim with its allocation and consumers, and the devices it counts as taken
+	if k8sPlugins := ssn.InternalK8sPlugins(); k8sPlugins != nil && k8sPlugins.FrameworkHandle != nil {
+		if mgr := k8sPlugins.FrameworkHandle.SharedDRAManager(); mgr != nil {
+			if cl, err := mgr.ResourceClaims().List(); err == nil && len(cl) > 0 {
+				var lines []string
+				for _, c := range cl {
+					var devs, users []string
+					if c.Status.Allocation != nil {
+						for _, r := range c.Status.Allocation.Devices.Results {
+							devs = append(devs, r.Driver+"/"+r.Pool+"/"+r.Device)
+						}
+					}
+					for _, r := range c.Status.ReservedFor {
+						users = append(users, r.Name)
+					}
+					sort.Strings(devs)
+					sort.Strings(users)
+					if mgr.ResourceClaims().ClaimHasPendingAllocation(c.UID) {
+						// claim of a pod that is being bound: the allocation of its BindRequest is held "in flight"; whether
+						// the claim object is, on top of that, assumed allocated is a representation detail (an evict +
+						// un-evict of such a pod turns one into the other); the devices show up in the global set below
+						lines = append(lines, fmt.Sprintf("%s/%s taken (allocation of a BindRequest in flight)", c.Namespace, c.Name))
+						continue
+					}
+					lines = append(lines, fmt.Sprintf("%s/%s devices=%v reservedFor=%v", c.Namespace, c.Name, devs, users))
+				}
+				sort.Strings(lines)
+				fmt.Fprintf(&sb, "dra claims: %s\n", strings.Join(lines, "; "))
+				if ad, err := mgr.ResourceClaims().ListAllAllocatedDevices(); err == nil {
+					var ids []string
+					for id := range ad {
+						ids = append(ids, id.String())
+					}
+					sort.Strings(ids)
+					fmt.Fprintf(&sb, "dra allocated devices: %v\n", ids)
+				}
+			}
+		}
 	}
 	if qattrs := proportion.VerifQueues(framework.VerifPlugin(ssn, "proportion")); qattrs != nil {
 		ids := make([]string, 0, len(qattrs))
